@@ -75,12 +75,15 @@ Inductive c08_case :=
 
 Definition probe_check (l : list aggr) (p : probe) : issues :=
   let 'Probe q t i r1 r2 r3 r4 r5 r6 := p in
-  diff_if (optz_eqb (ts_before q t l) r1) "GetTimestampBefore"
-  ++ diff_if (optz_eqb (ts_after q t l) r2) "GetTimestampAfter"
-  ++ diff_if (opt_agg_key_eqb (current q l) r3) "GetCurrentAggregateReport"
-  ++ diff_if (opt_agg_key_eqb (agg_before q t l) r4) "GetAggregateBefore"
-  ++ diff_if (opt_agg_key_eqb (by_timestamp q t l) r5) "GetAggregateByTimestamp"
-  ++ diff_if (opt_agg_key_eqb (by_index q i l) r6) "GetAggregateByIndex".
+  (* the lookups of the model are characterised by the theorems of Properties/C08.v (greatest below / least above T,
+     latest unflagged entry strictly before T, i-th entry, ...): another answer of the implementation on the observed
+     store is a wrong retrieval, i.e. a failing input of the property *)
+  spec_if (optz_eqb (ts_before q t l) r1) "retrieval: GetTimestampBefore is not the greatest timestamp below T"
+  ++ spec_if (optz_eqb (ts_after q t l) r2) "retrieval: GetTimestampAfter is not the least timestamp above T"
+  ++ spec_if (opt_agg_key_eqb (current q l) r3) "retrieval: GetCurrentAggregateReport is not the entry with the greatest timestamp"
+  ++ spec_if (opt_agg_key_eqb (agg_before q t l) r4) "retrieval: data before T is not the latest unflagged entry strictly before T"
+  ++ spec_if (opt_agg_key_eqb (by_timestamp q t l) r5) "retrieval: GetAggregateByTimestamp is not the entry with that timestamp"
+  ++ spec_if (opt_agg_key_eqb (by_index q i l) r6) "retrieval: GetAggregateByIndex is not the i-th entry".
 
 (* the property on the observed store: per query, timestamps strictly increase with the nonces,
    which count up by one from 1 *)
